@@ -217,7 +217,9 @@ ApConsume(o, e) ==
                   "C06", "delivered offset is not the event's own resume point")
       o5a == Check(o4, ~o.closing, "C11", "event delivered while the stream is closed")
       o5 == Check(o5a, ~o.closeReturned, "C13", "event handed to the consumer after Close() returned")
-  IN  Check(o5, ~o.mustdie, "C06", "event outside its snapshot was delivered")
+      o6 == Check(o5, o.catchF[v] < 0 \/ e.q > o.catchF[v], "C08",
+                  "an event at or below the position already reached was shown again after a rollback")
+  IN  Check(o6, ~o.mustdie, "C06", "event outside its snapshot was delivered")
 
 \* consumer.TrackOffset(vb, off)
 ApTrack(o, e) ==
@@ -235,7 +237,9 @@ ApAck(o, e) ==
   [o EXCEPT !.ever[v] = @ \cup {e.off.seq},
             !.sess[v] = IF v \in o.range THEN @ \cup {e.off.seq} ELSE @,
             !.owned = IF v \in o.range THEN @ \cup {v} ELSE @,
-            !.adv[v] = IF v \in o.range /\ e.off.seq > @ THEN e.off.seq ELSE @]
+            \* the acknowledgement ADVANCES the position only if it lies above everything settled so far
+            \* (a reserved-key event may have moved the position past it without flagging it for saving, C14)
+            !.adv[v] = IF v \in o.range /\ e.off.seq > @ /\ e.off.seq > MaxOr(o.sess[v], 0 - 1) THEN e.off.seq ELSE @]
 
 \* any settlement while saves are in flight makes them non-idle
 Touch(o) == [o EXCEPT !.saves = {[s EXCEPT !.idle = FALSE] : s \in @}, !.news = TRUE]
@@ -270,7 +274,10 @@ ApStoreWrite(o, e) ==
       o1 == [o EXCEPT !.store[v] = e.off]
       o2 == Check(o1, HasSave(o, e.t) /\ s.begun /\ e.off.seq \in s.valid[v],
                   "C01", "durable checkpoint names a position that was not settled before the write began")
-      o3 == Check(o2, ~(HasSave(o, e.t) /\ s.idle), "C05", "a save issued when nothing changed performed a write")
+      o3 == IF HasSave(o, e.t) /\ s.idle
+            THEN Viol(Viol(o2, "C05", "a save issued when nothing changed performed a write"),
+                      "C14", "a checkpoint was written although nothing but reserved-key events had happened")
+            ELSE o2
       o4 == Check(o3, ValidOff(e.off) /\ e.off \in o.origin[v], "C06", "stored offset is torn or never issued")
   IN  Check(o4, HasSave(o, e.t) /\ v \in s.rng, "C04", "checkpoint written for a vBucket outside the assigned range")
 
@@ -400,7 +407,7 @@ Apply(o, e) ==
     [] e.ev = "Load"       -> ApLoad(o, e)
     [] e.ev = "OpenReq"    -> ApOpenReq(o, e)
     [] e.ev = "OpenRet"    -> ApOpenRet(o, e)
-    [] e.ev = "Sent"       -> IF Absorbable(e.e) THEN Touch(ApSent(o, e)) ELSE ApSent(o, e)
+    [] e.ev = "Sent"       -> IF NonDocAdvance(e.e) THEN Touch(ApSent(o, e)) ELSE ApSent(o, e)
     [] e.ev = "Pushed"     -> ApPushed(o, e)
     [] e.ev = "Consume"    -> ApConsume(o, e)
     [] e.ev = "Track"      -> ApTrack(o, e)
